@@ -13,14 +13,17 @@ import (
 	"path/filepath"
 	"sort"
 	"strconv"
+	"strings"
 	"time"
 	"unicode/utf8"
 
 	"github.com/logrange/logrange/api"
 
+	"github.com/logrange/logrange/pkg/model"
 	"github.com/logrange/logrange/pkg/model/field"
 	"github.com/logrange/logrange/pkg/model/tag"
 	"github.com/logrange/logrange/pkg/utils/kvstring"
+	rbytes "github.com/logrange/range/pkg/utils/bytes"
 	. "verifharness/common"
 )
 
@@ -35,7 +38,8 @@ type Replay struct {
 	S     []byte     `json:"s,omitempty"`
 	Pairs []Pair     `json:"pairs,omitempty"`
 	Text  string     `json:"text,omitempty"` // printable rendering of S / Pairs (information only)
-	Evs   []E2EEvent `json:"evs,omitempty"`  // e2e: the events written to one in-process server
+	Evs   []E2EEvent `json:"evs,omitempty"`  // e2e, pipe: the events written to one in-process server
+	TL    []byte     `json:"tl,omitempty"`   // vars: the tag line handed to the formatter if it is not the line of Pairs
 }
 
 // E2EEvent is one write of one event
@@ -45,7 +49,7 @@ type E2EEvent struct {
 	EF   []byte `json:"ef"`
 }
 
-const rule = "tag texts: exhaustive strings of length <= 3 over 9 symbols, spellings (quoted/raw/back-quoted values, blanks, braces, order) of random maps over an alphabet rich in quote, back-quote, backslash, comma, equals, braces, blank, NUL and bytes >= 0x80, mutated spellings and random strings; tag maps and field lists from the same alphabet printed and re-parsed; a case is non-trivial iff the text/map/list has at least one pair and at least one byte of the special alphabet, or (for the component functions) the input is non-empty"
+const rule = "tag texts: exhaustive strings of length <= 3 over 9 symbols, spellings (quoted/raw/back-quoted values, blanks, braces, order) of random maps over an alphabet rich in quote, back-quote, backslash, comma, equals, braces, blank, NUL and bytes >= 0x80, mutated spellings and random strings; tag maps and field lists from the same alphabet printed and re-parsed (also through NewFieldsFromSlice/NewFields/MergeWithMap/Concat/Value and the JSON form and accessors of tag.Set); the {vars} element of the formatter for accepted tag sets and field lists; one in-process server with a pipe: events with fields of their own written into source partitions with hostile-but-legal tag sets, the copies read from the destination; a case is non-trivial iff the text/map/list has at least one pair and at least one byte of the special alphabet, or (for the component functions) the input is non-empty"
 
 var special = []byte{'"', '\\', ',', '=', '{', '}', '`', ' ', 0, 0x80, 0xff, 0xc3, 0xa9, '\n', '\t'}
 var letters = []byte("abcxyz01AZ._-")
@@ -271,6 +275,9 @@ func tagNeedsQuote(v []byte, last bool) bool {
 	}
 	if v[0] == ' ' || v[len(v)-1] == ' ' || v[0] == '"' || v[0] == '`' {
 		return true
+	}
+	if bytes.IndexByte(v, '\n') >= 0 {
+		return true // a line is one line (the line-break repair)
 	}
 	return last && v[len(v)-1] == '}'
 }
@@ -606,6 +613,12 @@ func mkCase1(rp Replay) (*Case, error) {
 			cs.Oracle = &Violation{Class: cls, Detail: fmt.Sprintf("tag set %s is printed as %s which %s", showPairs(sortedPairs(m)), show([]byte(ln)), what)}
 		case string(back.Line()) != ln:
 			cs.Oracle = &Violation{Class: "tagline-not-idempotent", Detail: showPairs(rp.Pairs)}
+		case strings.IndexByte(ln, '\n') >= 0 && !nameHas(m, '\n'):
+			// C08_tags_single_line: a value with a line feed is written as a quoted literal (the LQL lexer reads a {tags}
+			// literal within one line)
+			cs.Oracle = &Violation{Class: "tagline-value-line-break", Detail: fmt.Sprintf("tag set %s is printed as %s: two lines", showPairs(sortedPairs(m)), show([]byte(ln)))}
+		default:
+			cs.Oracle = tagSetAPI(set, back, m, ln)
 		}
 	case "prov":
 		m := map[string]string{}
@@ -716,7 +729,11 @@ func mkCase1(rp Replay) (*Case, error) {
 			cs.Oracle = &Violation{Class: cls, Detail: fmt.Sprintf("field list %s is printed as %s which %s", showItems(items), show([]byte(txt)), what)}
 		} else if f.AsKVString() != txt {
 			cs.Oracle = &Violation{Class: "fieldkv-nondeterministic", Detail: showItems(items)}
+		} else {
+			cs.Oracle = fieldsAPI(f, items)
 		}
+	case "vars":
+		return mkVars(rp)
 	default:
 		return nil, fmt.Errorf("unknown case kind %q", rp.Kind)
 	}
@@ -967,6 +984,503 @@ func showKeys(m map[string]int) []string {
 	return ks
 }
 
+func nameHas(m map[string]string, c byte) bool {
+	for k := range m {
+		if strings.IndexByte(k, c) >= 0 {
+			return true
+		}
+	}
+	return false
+}
+
+// tagSetAPI: the other ways a tag.Set emits or compares its line, on a set whose line came back: Tag, String, Equals,
+// SubsetOf, IsEmpty and the JSON form (MarshalJSON writes the line as a JSON string, UnmarshalJSON parses it; only
+// for lines that are valid UTF-8: encoding/json replaces other bytes by U+FFFD, see C06 identity-restart-invalid-utf8-line)
+func tagSetAPI(set, back tag.Set, m map[string]string, ln string) (v *Violation) {
+	defer func() {
+		if r := recover(); r != nil {
+			v = &Violation{Class: "panicked:tag.Set", Detail: fmt.Sprintf("%s: %v", show([]byte(ln)), r)}
+		}
+	}()
+	for k, val := range m {
+		if set.Tag(k) != val || back.Tag(k) != val {
+			return &Violation{Class: "tagset-accessors", Detail: fmt.Sprintf("line %s: Tag(%s) = %s / %s, the value is %s", show([]byte(ln)), show([]byte(k)), show([]byte(set.Tag(k))), show([]byte(back.Tag(k))), show([]byte(val)))}
+		}
+	}
+	if set.String() != ln || !back.Equals(set) || !set.SubsetOf(back) || !back.SubsetOf(set) || set.IsEmpty() != (len(m) == 0) {
+		return &Violation{Class: "tagset-accessors", Detail: fmt.Sprintf("line %s: String/Equals/SubsetOf/IsEmpty of the set and of its re-parse disagree", show([]byte(ln)))}
+	}
+	if utf8.ValidString(ln) {
+		js, err := json.Marshal(&set)
+		var s2 tag.Set
+		if err == nil {
+			err = json.Unmarshal(js, &s2)
+		}
+		if err != nil || !mapEq(tag.VC08TagMap(s2), m) || string(s2.Line()) != ln {
+			return &Violation{Class: "tagset-json-roundtrip", Detail: fmt.Sprintf("line %s: JSON form %s comes back as %s (err %v)", show([]byte(ln)), js, show([]byte(s2.Line())), err)}
+		}
+	}
+	return nil
+}
+
+// fieldsAPI: the other constructors and readers of a field list, on a well-formed list whose text came back:
+// NewFieldsFromSlice and NewFields build the same binary form (and hence the same text), Value answers with the first
+// field of a name, MergeWithMap replaces the fields of the given names, Concat appends
+func fieldsAPI(f field.Fields, items [][]byte) (v *Violation) {
+	defer func() {
+		if r := recover(); r != nil {
+			v = &Violation{Class: "panicked:field.Fields", Detail: fmt.Sprintf("%s: %v", showItems(items), r)}
+		}
+	}()
+	var ss []string
+	for _, it := range items {
+		ss = append(ss, string(it))
+	}
+	if f2, err := field.NewFieldsFromSlice(ss...); err != nil || f2 != f {
+		return &Violation{Class: "fields-constructors", Detail: fmt.Sprintf("NewFieldsFromSlice(%s) differs from the list (err %v)", showItems(items), err)}
+	}
+	if f.IsEmpty() != (len(items) == 0) {
+		return &Violation{Class: "fields-accessors", Detail: "IsEmpty: " + showItems(items)}
+	}
+	first := map[string]string{}
+	uniq := true
+	for i := 0; i+1 < len(ss); i += 2 {
+		if _, ok := first[ss[i]]; ok {
+			uniq = false
+			continue
+		}
+		first[ss[i]] = ss[i+1]
+	}
+	for k, val := range first {
+		if f.Value(k) != val {
+			return &Violation{Class: "fields-accessors", Detail: fmt.Sprintf("%s: Value(%s) = %s", showItems(items), show([]byte(k)), show([]byte(f.Value(k))))}
+		}
+	}
+	if uniq {
+		f3, err := field.NewFields(first)
+		got, ok := decodeFields([]byte(f3))
+		gm := map[string]string{}
+		for i := 0; i+1 < len(got); i += 2 {
+			gm[string(got[i])] = string(got[i+1])
+		}
+		if err != nil || !ok || len(got) != len(items) || !mapEq(gm, first) {
+			return &Violation{Class: "fields-constructors", Detail: fmt.Sprintf("NewFields(map of %s) = %s (err %v)", showItems(items), showItems(got), err)}
+		}
+	}
+	if len(ss) >= 2 {
+		var w rbytes.Writer
+		mm := map[string]string{ss[0]: "zz"}
+		merged := string(f.MergeWithMap(mm, &w))
+		var exp [][]byte
+		for i := 0; i+1 < len(items); i += 2 {
+			if ss[i] != ss[0] {
+				exp = append(exp, items[i], items[i+1])
+			}
+		}
+		exp = append(exp, items[0], []byte("zz"))
+		if merged != string(encodeFields(exp)) {
+			got, _ := decodeFields([]byte(merged))
+			return &Violation{Class: "fields-merge-with-map", Detail: fmt.Sprintf("%s merged with {%s: zz} gives %s", showItems(items), show(items[0]), showItems(got))}
+		}
+		var w2 rbytes.Writer
+		if string(f.Concat(field.Fields(merged), &w2)) != string(f)+merged {
+			return &Violation{Class: "fields-concat", Detail: showItems(items)}
+		}
+	}
+	return nil
+}
+
+// provClass: the recorded input classes on which the provenance fields derived from a tag line (field.Parse of the
+// line) are not the pairs of the tag set
+func provClass(m map[string]string) string {
+	cls := ""
+	for _, p := range sortedPairs(m) {
+		switch {
+		case cls != "":
+		case p.K[0] == '"' || p.K[0] == '`':
+			cls = "tag-name-leading-quote-char"
+		case len(p.K) > 255 || len(p.V) > 255:
+			// the limit is on what is stored: a printed (quoted) form longer than 255 bytes is no reason
+			cls = "item-over-255"
+		}
+	}
+	return cls
+}
+
+// mkPipe: the pipe worker end to end. One in-process server, CREATE PIPE <p> FROM pp=1 before any write, then every
+// event is written into a source partition (its tag text holds pp=1 among hostile-but-legal names and values) with
+// write-level and event-level fields of its own; the copied event is read from the destination partition
+// {logrange.pipe=<p>} through the RPC querier. Oracle: the Fields text parses back (field parser) to exactly the event's
+// own fields followed by the provenance fields = the pairs of the source tag set in the order of its line (own fields
+// first: Fields.Value answers with the first field of a name). One case per copied event.
+func mkPipe(rp Replay) (out []*Case, err error) {
+	defer func() {
+		if r := recover(); r != nil {
+			cp, ok := r.(callPanic)
+			if !ok {
+				cp = callPanic{fn: "harness/pipe", in: "", val: fmt.Sprint(r)}
+			}
+			out = []*Case{{Stream: "pipe", Replay: rp, NonTrivial: true,
+				Coq:    GApp("KPanicked", GStr(cp.fn), GStr(cp.in)),
+				Oracle: &Violation{Class: "panicked:" + cp.fn, Detail: fmt.Sprintf("%s(%s) panicked: %s", cp.fn, show([]byte(cp.in)), cp.val)}}}
+			err = nil
+		}
+	}()
+	srv, err := StartServer(ServerOpts{})
+	if err != nil {
+		return nil, err
+	}
+	defer srv.Stop()
+	const pname = "c08p"
+	if _, err := srv.Exec("CREATE PIPE " + pname + " FROM pp=1"); err != nil {
+		return nil, fmt.Errorf("create pipe: %v", err)
+	}
+	ctx := context.Background()
+	want := map[int]map[string]string{} // acknowledged events whose tag set the pipe selects
+	for i, e := range rp.Evs {
+		var res api.WriteResult
+		ev := []*api.LogEvent{{Timestamp: int64(1000 + i), Message: fmt.Sprintf("m%04d", i), Fields: string(e.EF)}}
+		if err := srv.Client.Write(ctx, string(e.Tags), string(e.WF), ev, &res); err != nil {
+			return nil, fmt.Errorf("rpc write: %v", err)
+		}
+		if res.Err != nil {
+			continue
+		}
+		if m, err := rToMap(string(e.Tags)); err == nil && m["pp"] == "1" {
+			want[i] = m
+		}
+	}
+	got := map[string]*api.LogEvent{}
+	WaitFor(30*time.Second, func() bool {
+		var qres api.QueryResult
+		if err := srv.Client.Query(ctx, &api.QueryRequest{Query: "SELECT FROM logrange.pipe=" + pname + " LIMIT 10000", Limit: 10000}, &qres); err != nil || qres.Err != nil {
+			return false
+		}
+		for _, e := range qres.Events {
+			got[e.Message] = e
+		}
+		return len(got) >= len(want)
+	})
+	for i, e := range rp.Evs {
+		m := want[i]
+		ev := got[fmt.Sprintf("m%04d", i)]
+		if m == nil || ev == nil {
+			continue // refused, not selected, or not copied (yet): whether every event is copied is C10's business
+		}
+		cs := &Case{Stream: "pipe", Replay: Replay{Kind: "pipe", Evs: []E2EEvent{e}}, NonTrivial: true}
+		var vals [][]byte
+		var prov [][]byte
+		for _, p := range sortedPairs(m) {
+			vals = append(vals, p.K, p.V)
+			prov = append(prov, p.K, p.V)
+		}
+		f1, _ := rNewFields(string(e.WF))
+		f2 := rFieldParse(string(e.EF))
+		ownItems, _ := decodeFields([]byte(string(f1) + string(f2)))
+		vals = append(vals, ownItems...)
+		ts := rMapToSet(m)
+		ln := string(ts.Line())
+		ut := unquoteTableMany(string(e.Tags), string(e.WF), string(e.EF), ln)
+		cs.Coq = GApp("KPipe", GBytes(e.Tags), GBytes(e.WF), GBytes(e.EF), ut, quoteTable(vals), GStr(ev.Fields))
+		back, e2 := rParse(ln)
+		switch {
+		case ev.Tags != "logrange.pipe="+pname:
+			cs.Oracle = &Violation{Class: "pipe-destination-tags-text", Detail: show([]byte(ev.Tags))}
+		case e2 != nil || !mapEq(tag.VC08TagMap(back), m):
+			cs.Tags = append(cs.Tags, "pipe:line-unsafe") // the source line itself does not denote the set (recorded tag-line classes)
+		default:
+			fo, ferr := rNewFields(ev.Fields)
+			exp := string(f1) + string(f2) + string(encodeFields(prov))
+			if ferr != nil || string(fo) != exp {
+				cls := provClass(m)
+				if cls == "" {
+					cls = "pipe-provenance-unclassified"
+				} else {
+					cls = "provenance-" + cls
+				}
+				what := "does not parse"
+				if ferr == nil {
+					bi, _ := decodeFields([]byte(fo))
+					what = "parses to " + showItems(bi)
+				}
+				cs.Oracle = &Violation{Class: cls, Detail: fmt.Sprintf("event written with tags %s and fields %s + %s: the copy in the pipe's destination is returned with Fields %s which %s; expected the own fields %s followed by the source tags %s",
+					show(e.Tags), show(e.WF), show(e.EF), show([]byte(ev.Fields)), what, showItems(ownItems), showItems(prov))}
+			} else if len(ownItems) > 0 {
+				// precedence: a name that is both a tag and an own field answers with the own field
+				le := field.Fields(fo)
+				if v := le.Value(string(ownItems[0])); v != string(ownItems[1]) {
+					cs.Oracle = &Violation{Class: "pipe-own-field-precedence", Detail: fmt.Sprintf("Fields %s: Value(%s) = %s, the event's own field is %s", show([]byte(ev.Fields)), show(ownItems[0]), show([]byte(v)), show(ownItems[1]))}
+				}
+			}
+		}
+		out = append(out, cs)
+	}
+	return out, nil
+}
+
+// genPipe: source tag texts with pp=1 and hostile-but-legal names and values, events with fields of their own
+func genPipe(r *Rng, n int) []E2EEvent {
+	hostile := func() []byte {
+		switch r.Intn(12) {
+		case 0:
+			return []byte("a,b=c")
+		case 1:
+			return []byte(" lead")
+		case 2:
+			return []byte("trail ")
+		case 3:
+			return []byte("\"q\"")
+		case 4:
+			return []byte("`b`")
+		case 5:
+			return []byte("x}")
+		case 6:
+			return bytes.Repeat([]byte{'v'}, r.PickInt(254, 255, 256))
+		case 7:
+			v := bytes.Repeat([]byte{'w'}, 255)
+			v[r.Intn(255)] = ','
+			return v // 255 bytes, quoted form longer
+		case 8:
+			return []byte{'y', 0xff, 0x80, 'z'}
+		case 9:
+			return []byte("in\"ner\"q")
+		case 10:
+			return []byte("")
+		}
+		return genStr(r, 6, 35)
+	}
+	name := func() []byte {
+		switch r.Intn(10) {
+		case 0:
+			return []byte("\"qn\"") // a quoted literal as a name: the tag parser keeps the quotes
+		case 1:
+			return []byte("n m")
+		case 2:
+			return []byte{'n', 0xc3, 0xa9}
+		case 3:
+			return bytes.Repeat([]byte{'N'}, r.PickInt(255, 256))
+		case 4:
+			return []byte("k.x")
+		}
+		return []byte(r.PickStr("name", "ip", "zone", "a", "B"))
+	}
+	spellV := func(v []byte) string {
+		if len(v) > 0 && bytes.IndexAny(v, ",=\" `{}\\") < 0 && r.Chance(1, 2) {
+			return string(v)
+		}
+		return strconv.Quote(string(v))
+	}
+	fields := func(maxPairs int, dupOf [][]byte) []byte {
+		np := r.Range(0, maxPairs)
+		var sb bytes.Buffer
+		for i := 0; i < np; i++ {
+			if i > 0 {
+				sb.WriteByte(',')
+			}
+			k := []byte(r.PickStr("f", "g", "msgid", "name", "pp"))
+			if len(dupOf) > 0 && r.Chance(1, 3) {
+				k = dupOf[r.Intn(len(dupOf))] // a field with the same name as a tag
+			}
+			if bytes.IndexAny(k, ",=\" `{}\\") >= 0 || len(k) == 0 || len(k) > 200 {
+				k = []byte("f")
+			}
+			sb.Write(k)
+			sb.WriteByte('=')
+			v := hostile()
+			if len(v) > 40 {
+				v = v[:40]
+			}
+			sb.WriteString(spellV(v))
+		}
+		return sb.Bytes()
+	}
+	var evs []E2EEvent
+	for i := 0; i < n; i++ {
+		var names [][]byte
+		var sb bytes.Buffer
+		np := r.Range(1, 3)
+		pos := r.Intn(np + 1)
+		seen := map[string]bool{"pp": true}
+		for j := 0; j <= np; j++ {
+			if sb.Len() > 0 {
+				sb.WriteByte(',')
+			}
+			if j == pos {
+				sb.WriteString("pp=1")
+				continue
+			}
+			k := name()
+			if seen[string(k)] {
+				k = []byte(fmt.Sprintf("t%d", j))
+			}
+			seen[string(k)] = true
+			names = append(names, k)
+			sb.WriteString(blanks(r))
+			sb.Write(k)
+			sb.WriteByte('=')
+			sb.WriteString(spellV(hostile()))
+		}
+		e := E2EEvent{Tags: sb.Bytes(), WF: fields(2, names), EF: fields(2, names)}
+		evs = append(evs, e)
+		if r.Chance(1, 3) {
+			evs = append(evs, E2EEvent{Tags: e.Tags, WF: fields(1, names), EF: fields(2, names)}) // a second event of the partition
+		}
+	}
+	return evs
+}
+
+func corpusPipe() []E2EEvent {
+	T := func(t, wf, ef string) E2EEvent { return E2EEvent{Tags: []byte(t), WF: []byte(wf), EF: []byte(ef)} }
+	long := strings.Repeat("x", 256)
+	return []E2EEvent{
+		T(`pp=1,name=app`, `f=1`, `g=2`),
+		T(`pp=1,name=app`, ``, ``),
+		T(`name="a,b=c",pp=1,zone=" x "`, `name=own`, `zone=""`), // own fields with the names of tags: both kept, own first
+		T(`pp=1,a="x}"`, `k="v}"`, ``),                           // closing braces at the ends of line and field text
+		T("pp=1,b=\"`q`\",a=\"\\\"q\\\"\"", ``, "f=`r`"),
+		T(`pp=1,"x"=1`, `f=1`, ``),               // provenance-tag-name-leading-quote-char
+		T(`pp=1,a=`+long, `f=1`, `g=2`),          // provenance-item-over-255: no provenance at all
+		T(`pp=1,a="`+long[:254]+`,"`, ``, `f=1`), // 255 bytes, quoted form of 258: fine
+		T("pp=1,a=y\xff\x80z", `f=1`, ``),
+		T("pp=1,a=\"new\\nline\"", `f=1`, "g=\"x\\ny\""),
+		T(`pp=1,a="in\"ner\"q",b=""`, `f=""`, ``),
+	}
+}
+
+// mkVars: the {vars} element of the formatter (model.NewFormatParser: forwarder sinks, the shell): the tag line, ','
+// and the text of the field list. Oracle: for the canonical line of a tag set the text is accepted by the field parser
+// and denotes the pairs of the set followed by the fields; {vars:<name>} gives the field of that name or, if there is
+// none (or it is empty), the tag.
+func mkVars(rp Replay) (*Case, error) {
+	cs := &Case{Stream: "vars"}
+	m := map[string]string{}
+	for _, p := range rp.Pairs {
+		m[string(p.K)] = string(p.V)
+	}
+	canon := rp.TL == nil
+	var tl string
+	if canon {
+		ts := rMapToSet(m)
+		tl = string(ts.Line())
+	} else {
+		tl = string(rp.TL)
+	}
+	items, wf := decodeFields(rp.S)
+	wf = wf && len(items)%2 == 0
+	var vals [][]byte
+	for _, p := range sortedPairs(m) {
+		vals = append(vals, p.K, p.V)
+	}
+	vals = append(vals, items...)
+	le := model.LogEvent{Timestamp: 1, Msg: rbytes.StringToByteArray("m"), Fields: field.Fields(rp.S)}
+	var txt string
+	panicked := false
+	func() {
+		defer func() {
+			if r := recover(); r != nil {
+				panicked = true
+			}
+		}()
+		fp, err := model.NewFormatParser("{vars}")
+		if err != nil {
+			panic(err)
+		}
+		txt = fp.FormatStr(&le, tl)
+	}()
+	cs.Replay = rp
+	if panicked {
+		cs.Coq = GApp("KVars", GStr(tl), GBytes(rp.S), gPairs(rp.Pairs), GBool(canon), "[]", "[]", GNone, GNone)
+		cs.Tags = append(cs.Tags, "vars:panic")
+		if wf {
+			cs.Oracle = &Violation{Class: "vars-panic-on-wellformed", Detail: show(rp.S)}
+		}
+		return cs, nil
+	}
+	back, err := rNewFields(txt)
+	cs.Coq = GApp("KVars", GStr(tl), GBytes(rp.S), gPairs(rp.Pairs), GBool(canon), unquoteTable(txt), quoteTable(vals), GSome(GStr(txt)), gOptBytes(err == nil, []byte(back)))
+	cs.NonTrivial = len(m) > 0 && isSpecial([]byte(txt))
+	if !canon || !wf || len(m) == 0 {
+		cs.Tags = append(cs.Tags, "vars:no-claim")
+		return cs, nil
+	}
+	if b2, e2 := rParse(tl); e2 != nil || !mapEq(tag.VC08TagMap(b2), m) {
+		cs.Tags = append(cs.Tags, "vars:line-unsafe")
+		return cs, nil
+	}
+	var prov [][]byte
+	for _, p := range sortedPairs(m) {
+		prov = append(prov, p.K, p.V)
+	}
+	exp := string(encodeFields(prov)) + string(rp.S)
+	if err != nil || string(back) != exp {
+		cls := provClass(m)
+		if cls == "" {
+			cls = "vars-roundtrip-unclassified"
+		} else {
+			cls = "vars-" + cls
+		}
+		what := "does not parse"
+		if err == nil {
+			bi, _ := decodeFields([]byte(back))
+			what = "parses to " + showItems(bi)
+		}
+		cs.Oracle = &Violation{Class: cls, Detail: fmt.Sprintf("{vars} for the tags %s and the fields %s is %s which %s", showPairs(sortedPairs(m)), showItems(items), show([]byte(txt)), what)}
+		return cs, nil
+	}
+	// {vars} among constants and the message ({{ and {} stand for the braces): the same text, in its place
+	func() {
+		defer guard("model.FormatStr", "{{{vars}{} {msg}|{vars}")
+		fp, err := model.NewFormatParser("{{{vars}{} {msg}|{vars}")
+		if err != nil {
+			cs.Oracle = &Violation{Class: "vars-in-format", Detail: err.Error()}
+			return
+		}
+		if got := fp.FormatStr(&le, tl); got != "{"+txt+"} m|"+txt {
+			cs.Oracle = &Violation{Class: "vars-in-format", Detail: fmt.Sprintf("format {{{vars}{} {msg}|{vars} gives %s, {vars} alone %s", show([]byte(got)), show([]byte(txt)))}
+		}
+	}()
+	if cs.Oracle != nil {
+		return cs, nil
+	}
+	// {vars:<name>}: the first field of that name, or the tag if there is none or it is empty; printed as it is
+	names := map[string]bool{}
+	for k := range m {
+		names[k] = true
+	}
+	for i := 0; i+1 < len(items); i += 2 {
+		names[string(items[i])] = true
+	}
+	for k := range names {
+		if strings.ContainsAny(k, "{}") || strings.Trim(k, " ") != k || k == "" {
+			continue // not expressible in a format string
+		}
+		wantV := ""
+		for i := 0; i+1 < len(items); i += 2 {
+			if string(items[i]) == k {
+				wantV = string(items[i+1])
+				break
+			}
+		}
+		if wantV == "" {
+			wantV = m[k]
+		}
+		gotV := wantV
+		func() {
+			defer guard("model.FormatStr", k)
+			fp, err := model.NewFormatParser("{vars:" + k + "}")
+			if err != nil {
+				return // the name cannot be written in a format
+			}
+			gotV = fp.FormatStr(&le, tl)
+		}()
+		if gotV != wantV {
+			cs.Oracle = &Violation{Class: "vars-single-value", Detail: fmt.Sprintf("{vars:%s} gives %s for the tags %s and the fields %s", k, show([]byte(gotV)), showPairs(sortedPairs(m)), showItems(items))}
+			break
+		}
+	}
+	return cs, nil
+}
+
 func unquoteTableMany(texts ...string) string {
 	var it []string
 	seen := map[string]bool{}
@@ -1113,6 +1627,8 @@ func corpusE2E() []E2EEvent {
 		T(`app=x,zone="a,b"`, `common=c1`, `v=xyz`),
 		T(`app=x,zone="a,b"`, `common=c1`, `v=" yz"`),
 		T(`app=x,zone="a,b"`, `common=c1`, `w=xyz`),
+		T("a=\"new\\nline\",b=c", `k=v`, "f=\"x\\ny\""), // line feeds in a tag value and in a field value
+		T("b=c,a=new\nline", `k=v`, ``),                 // the same set, the line feed written raw
 		T(`b=2,a=1`, `k=v`, ``),
 		T(` a = "1" , b=2 `, `k=w`, ``),
 		T(`{{a=1,b=2}}`, `k=x`, `q=1`),
@@ -1195,17 +1711,21 @@ func corpus() []Replay {
 	long[7] = ','
 	return []Replay{
 		// the witnesses of the repaired classes: line() now writes these values as quoted literals and they come back
-		{Kind: "line", Pairs: P("a", "\"x")},          // a="\"x"
-		{Kind: "line", Pairs: P("a", "\"x\"")},        // a="\"x\""  (was a="x", which parses to x)
-		{Kind: "line", Pairs: P("a", "\"\"")},         // a="\"\""   (was a="", the line of the empty value)
-		{Kind: "line", Pairs: P("a", "")},             // a=""
-		{Kind: "line", Pairs: P("a", "`x`")},          // back-quoted
-		{Kind: "line", Pairs: P("a", "`x")},           //
-		{Kind: "line", Pairs: P("a", " x")},           // edge blank
-		{Kind: "line", Pairs: P("a", "x ")},           //
-		{Kind: "line", Pairs: P("a", "x}")},           // trailing brace of the last pair: quoted
-		{Kind: "line", Pairs: P("a", "x}", "b", "y")}, // not the last value: raw, as before
-		{Kind: "line", Pairs: P("a", "x\"y }")},       // last value, unbalanced quote AND trailing brace: quoted, comes back
+		{Kind: "line", Pairs: P("a", "\"x")},                 // a="\"x"
+		{Kind: "line", Pairs: P("a", "\"x\"")},               // a="\"x\""  (was a="x", which parses to x)
+		{Kind: "line", Pairs: P("a", "\"\"")},                // a="\"\""   (was a="", the line of the empty value)
+		{Kind: "line", Pairs: P("a", "")},                    // a=""
+		{Kind: "line", Pairs: P("a", "`x`")},                 // back-quoted
+		{Kind: "line", Pairs: P("a", "`x")},                  //
+		{Kind: "line", Pairs: P("a", " x")},                  // edge blank
+		{Kind: "line", Pairs: P("a", "x ")},                  //
+		{Kind: "line", Pairs: P("a", "x}")},                  // trailing brace of the last pair: quoted
+		{Kind: "line", Pairs: P("a", "x}", "b", "y")},        // not the last value: raw, as before
+		{Kind: "line", Pairs: P("a", "x\"y }")},              // last value, unbalanced quote AND trailing brace: quoted, comes back
+		{Kind: "line", Pairs: P("a", "new\nline", "b", "c")}, // a value with a line feed: quoted, the line is one line
+		{Kind: "line", Pairs: P("a", "x\ny\"z")},             // ... also when it holds an unbalanced double quote
+		{Kind: "line", Pairs: P("a", "cr\rtab\tnul\x00")},    // other control bytes are printed raw and come back
+		{Kind: "line", Pairs: P("a\nb", "1")},                // a line feed in a NAME (names are printed as they are): comes back, two lines
 		// what remains
 		{Kind: "line", Pairs: P("name", "a\"pp")},          // pinned by TestTagLine: printed raw, does not split
 		{Kind: "line", Pairs: P("a", "x\"y", "b", "z\"w")}, // two of them: the line splits into ONE pair (another set)
@@ -1250,6 +1770,15 @@ func corpus() []Replay {
 		{Kind: "prov", Pairs: P("\"x\"", "1")},
 		{Kind: "prov", Pairs: P("a", string(long[:8])+string(bytes.Repeat([]byte{'b'}, 250)))},
 		{Kind: "prov", Pairs: P("a", "b c", "d", "e,f")},
+		// the {vars} element of the formatter: tag line, ',' and the field text
+		{Kind: "vars", Pairs: P("a", "1", "b", "x,y"), S: F("f", "1", "a", "own")},
+		{Kind: "vars", Pairs: P("a", "1", "b", "x}"), S: nil},                                    // no fields: the line alone
+		{Kind: "vars", Pairs: P("a", "x}"), S: F("f", "v}", "{g", "")},                           // braces at the ends of the two texts
+		{Kind: "vars", Pairs: P("a", " x "), S: F("", "", " ", "`q`", "n\"", "1")},               // names and values the field printer quotes
+		{Kind: "vars", Pairs: P("\"x\"", "1"), S: F("f", "1")},                                   // vars-tag-name-leading-quote-char
+		{Kind: "vars", Pairs: P("a", string(bytes.Repeat([]byte{'x'}, 256))), S: F("f", "1")},    // vars-item-over-255
+		{Kind: "vars", Pairs: P("a", "1", "b", "2"), TL: str("{ b = 2 , a=1 }"), S: F("f", "1")}, // a line that is not canonical: no claim
+		{Kind: "vars", Pairs: P("a", "1"), S: []byte{5, 'a'}},                                    // malformed field list: AsKVString panics
 		{Kind: "unquote", S: str("\"x\"")},
 		{Kind: "unquote", S: str("`x`")},
 		{Kind: "fparse", S: str("a=1,a=2, b = `q` ")},
@@ -1265,8 +1794,12 @@ func main() {
 			if err := FromJSON(c.Replay, &rp); err != nil {
 				return err
 			}
-			if rp.Kind == "e2e" {
-				css, err := mkE2E(rp)
+			if rp.Kind == "e2e" || rp.Kind == "pipe" {
+				mk := mkE2E
+				if rp.Kind == "pipe" {
+					mk = mkPipe
+				}
+				css, err := mk(rp)
 				if err != nil {
 					return err
 				}
@@ -1317,6 +1850,18 @@ func main() {
 				jobs = append(jobs, Replay{Kind: "line", Pairs: ps})
 				if r.Chance(1, 2) {
 					jobs = append(jobs, Replay{Kind: "prov", Pairs: ps})
+				}
+				if r.Chance(1, 3) {
+					// the {vars} element of the formatter for this set and a field list
+					fps := genPairs(r, 3, 15, 35, false)
+					var items [][]byte
+					for _, p := range fps {
+						items = append(items, p.K, p.V)
+					}
+					if r.Chance(1, 4) && len(ps) > 0 {
+						items = append(items, ps[0].K, []byte("own")) // a field with the name of a tag
+					}
+					jobs = append(jobs, Replay{Kind: "vars", Pairs: ps, S: encodeFields(items)})
 				}
 			}
 		}
@@ -1407,6 +1952,15 @@ func main() {
 				c.Add(*cs)
 			}
 		}
+		// the pipe worker end to end: one server, one pipe, source partitions with hostile-but-legal tag sets
+		pcs, err := mkPipe(Replay{Kind: "pipe", Evs: append(corpusPipe(), genPipe(r, c.N(14))...)})
+		if err != nil {
+			return err
+		}
+		for _, cs := range pcs {
+			c.Add(*cs)
+		}
+		c.Note("pipe_events_copied_and_compared", len(pcs))
 		return c.Finish(rule)
 	})
 }
